@@ -397,16 +397,18 @@ func (n *Tree[V]) findNode(path string, captures []string, matcher LookupMatcher
 
 	if n.catchAllChild != nil {
 		// Hit the catchall, so just assign the whole remaining path.
+		captures = append(captures, path)
+
 		for idx, value = range n.catchAllChild.values {
-			if match := matcher.Match(value, n.wildcardKeys, captures); match {
-				return n.catchAllChild, idx, append(captures, path), false
+			if match := matcher.Match(value, n.catchAllChild.wildcardKeys, captures); match {
+				return n.catchAllChild, idx, captures, false
 			}
 		}
 
-		return nil, 0, captures, n.backtrackingEnabled
+		return nil, 0, nil, n.backtrackingEnabled
 	}
 
-	return nil, 0, captures, true
+	return nil, 0, nil, true
 }
 
 func (n *Tree[V]) splitCommonPrefix(existingNodeIndex int, path string) (*Tree[V], int) {
